@@ -6,6 +6,6 @@ for f in sorted(glob.glob('/verif/.work/seedlogs/*.log')):
     t=open(f).read()
     try:
         d=json.loads(t[t.index('{'):])
-        print(s, {k:d.get(k) for k in ('confirmed','detected','check_exit','check_wall_s')}, d.get('check_tags')[:6] if d.get('check_tags') else '', '' if d.get('confirmed') else {k:d.get(k) for k in ('patch_applies','tests_ok','demo_without_patch_exit','demo_with_patch_exit')})
+        print(s, {k:d.get(k) for k in ('confirmed','detected','check_exit','check_wall_s')}, d.get('check_tags')[:6] if d.get('check_tags') else '', {k:(v['detected'],v['tags'][:3]) for k,v in (d.get('also') or {}).items()} or '', '' if d.get('confirmed') else {k:d.get(k) for k in ('patch_applies','tests_ok','demo_without_patch_exit','demo_with_patch_exit')})
     except Exception as e:
         print(s, 'pending/err', t[-200:].replace('\n',' '))
